@@ -65,6 +65,26 @@ def run(ctx):
                 "changes on %s; the next frame of any connection is emitted over them"
                 % sorted(p.dirty), render_path(p.events))
     ctx.require("R09.emit", nsend, 10, "frame emissions / listener callbacks")
+    # a COMMIT whose failure is swallowed is no commit: the handler goes on to
+    # answer over a transaction that is still open
+    ctx.rule("R09.swallow", "no commit of a command handler runs under a handler that "
+             "catches database errors and carries on")
+    SW = ("OperationalError", "DatabaseError", "IntegrityError", "Exception", "BaseException")
+    nsw = 0
+    seen_sw = set()
+    for en in model.WS_ENTRIES:
+        for p in model.paths(en):
+            for e, _ in all_events(p, ("commit",)):
+                nsw += 1
+                hit = [h for h in e["handlers"] if any(nm in SW for nm in h[0])]
+                if hit and e["site"] not in seen_sw:
+                    seen_sw.add(e["site"])
+                    ctx.ob("R09.swallow", "commit at %s:%d" % e["site"][:2], False, e,
+                           "the commit runs inside `except %s` (%s:%d): when it fails the "
+                           "command carries on and its answer is sent over uncommitted "
+                           "changes" % ("/".join(hit[0][0]), hit[0][1][0], hit[0][1][1]))
+    ctx.ob("R09.swallow", "commit failures are not swallowed by command handlers",
+           not seen_sw, "", "%d commit events" % nsw)
     # may-raise sites found by E3/E3'
     e3 = e3mod.get(model)
     for f in e3.may_raise():
